@@ -18,6 +18,7 @@ import (
 	"fmt"
 	"io"
 	"log"
+	"os"
 	"path/filepath"
 	"time"
 
@@ -66,8 +67,16 @@ func writeFrame(b *Builder, frame []byte) error {
 
 func nextFile(outDir string) (*bufferedFile, error) {
 	n := nextFileName(outDir)
+	f, err := newBufferedFile(n)
+	// File names have one second resolution: when the name is already taken (a
+	// reconnect or a clock step within the same second) wait for the next one.
+	for os.IsExist(err) {
+		time.Sleep(100 * time.Millisecond)
+		n = nextFileName(outDir)
+		f, err = newBufferedFile(n)
+	}
 	log.Println("writing to", n)
-	return newBufferedFile(n)
+	return f, err
 }
 
 func nextFileName(outDir string) string {
